@@ -170,8 +170,6 @@ for _k, _t in {"C03": {**_FL_CURVE, **_FL_BOUNDS}, "C04": {**_FL_FIELD, **_FL_BO
                "C10": {**_FL_CURVE, **reg("Voi.Props.FL.Sqrt")}, "C11": {**_FL_CURVE, **reg("Voi.Props.FL.Sqrt", "Voi.Props.FL.Ristretto"), **_FL_BOUNDS}}.items():
     PROPS[_k]["theorems"] = {**PROPS[_k]["theorems"], **_t}
     PROPS[_k]["gens"] = sorted(set(PROPS[_k].get("gens") or []) | {"go2ir", "flevel"})
-    if _k == "C11":
-        continue  # T2 is already part of the properties below it
     # T2: the real functions against the regenerated field-level programs (validates the field-level translator); serial builds only
     PROPS[_k]["streams"] = PROPS[_k]["streams"] + [("T2", 3000, {"configs": ["purego", "force32bit"]})]
 # Every API-level property also executes its own request stream from 16 goroutines sharing all package-level state: scratch
